@@ -5571,7 +5571,12 @@ class Parameterized(metaclass=ParameterizedMetaclass):
                         if hasattr(fn, '_watcher_name'):
                             watcher_args[2] = _m_caller(self, fn._watcher_name)
                         elif get_method_owner(fn) is watcher.inst:
-                            watcher_args[2] = getattr(self, fn.__name__)
+                            # the same function, bound to the new object (a
+                            # lookup by fn.__name__ fails for private methods,
+                            # whose attribute name is mangled)
+                            func = getattr(fn, '__func__', None)
+                            watcher_args[2] = (getattr(self, fn.__name__) if func is None
+                                               else MethodType(func, self))
                         new_watcher = Watcher(*watcher_args)
                         recreated[id(watcher)] = (watcher, new_watcher)
                         new_watchers.append(new_watcher)
